@@ -13,7 +13,9 @@ META = {
         "literal None, exceptional handlers included; C04.3 the predicate is true exactly for id absent / None / '' "
         "(abstractly evaluated over the partition of id values induced by the constants); C04.4 the pooled branch "
         "enqueues the same callee with the same arguments as the synchronous branch calls; C04.5 the client "
-        "notification call returns nothing and Payload.notify drops the id for 2.0 and nulls it for 1.0."),
+        "notification call returns nothing and Payload.notify drops the id for 2.0 and nulls it for 1.0; C04.6 in the batch and the "
+        "single path of _unmarshaled_dispatch every entry accepted by validate_request reaches _marshaled_single_dispatch on all "
+        "normal paths (no further rejection)."),
     "does_not_decide": "that an enqueued notification is eventually executed exactly once by the pool under "
                        "every interleaving (schedule-quantified; C09 covers the pool's structural discipline).",
     "rules": {
@@ -22,6 +24,7 @@ META = {
         "C04.3": "abstract evaluation of the predicate expression over representative id classes vs spec table A.5",
         "C04.4": "argument-list comparison of sibling call sites (enqueue(f, *a) vs f(*a))",
         "C04.5": "return statements of _request_notify; abstract evaluation of Payload.notify per version region",
+        "C04.6": "reachability avoiding the dispatch call from the accepting edge of the validation test",
     },
     "assumptions": ["a custom dispatch function and the registered callables are opaque; only that they are "
                     "invoked once is decided"],
@@ -44,6 +47,9 @@ def find_predicate(fi, g, request_param="request"):
                 not isinstance(v, ast.Call)
             if mentions_id and mentions_req and has_test and isinstance(v, (ast.BoolOp, ast.Compare, ast.UnaryOp)):
                 out.append(n)
+            elif isinstance(v, ast.Call) and "notif" in n.ast.targets[0].id.lower() and any(
+                    isinstance(a, ast.Name) and a.id == request_param for a in v.args):
+                out.append(n)      # predicate delegated to a helper: evaluated through the helper's body
     return out
 
 
@@ -189,6 +195,24 @@ def check(ck):
                            "argument is request[%r]" % key,
                            "dispatch argument %d is %s, expected the request's %r member" % (pos, prov.show(t), key),
                            q.loc(fi, n))
+
+    # ---- C04.6 a validated entry always reaches the single dispatch ------------------------------------------------------
+    from vlib.flow import dominators, reachable_avoiding
+    fu = prog.func(SRV, DISP + "._unmarshaled_dispatch")
+    gu = cfg_of(fu)
+    singles = [n for (n, c) in q.call_sites(prog, fu, lambda r, c: q.is_func(r, "%s.%s._marshaled_single_dispatch" % (SRV, DISP)))]
+    nonfault = [b for b in gu.live_nodes() if b.kind == "branch" and b.polarity is False and isinstance(b.test, ast.Call) and
+                dump(b.test.func) == "isinstance" and prog.typeset(fu.module, b.test.args[1]) == {"class:jsonrpc.Fault"} and
+                prov.origin(gu, b, b.test.args[0])[0] == "call" and prov.origin(gu, b, b.test.args[0])[1] == ("global", "validate_request")]
+    if len(singles) < 2 or len(nonfault) < 2:
+        raise AnalysisError("anchor vanished: validate/dispatch structure of _unmarshaled_dispatch (%d/%d)" % (len(nonfault), len(singles)))
+    heads = [n.id for n in gu.live_nodes() if n.kind == "for"]
+    for b in nonfault:
+        reach = reachable_avoiding(gu, b.id, set(s.id for s in singles), lambda l: l != "exc")
+        leaks = [x for x in [gu.return_exit.id] + heads if x in reach]
+        ck.require(not leaks, "C04.6", "%s: valid entry (L%s) always dispatched" % (q.fn(fu), b.lineno), "every normal path passes _marshaled_single_dispatch",
+                   "an entry accepted by validate_request can leave the iteration/function without being handed to _marshaled_single_dispatch: a "
+                   "well-formed notification (e.g. a 1.0 one inside a batch) is not executed", q.loc(fu, b))
 
     # ---- C04.5 client side ---------------------------------------------------------
     fn = prog.func("jsonrpc", "ServerProxy._request_notify")
